@@ -632,6 +632,23 @@ func checkRegistrationOrder(c *Ctx, rule string) {
 				"bytes of a request can reach the transport before the request is registered in the transaction table (a fast peer's response finds no matching request)",
 				map[string]interface{}{"transport_write": describeInstr(o), "registration_sites": regPos})
 		}
+		// the transaction lock is bookkeeping only: it must not be held while bytes go to the transport (the reading
+		// goroutine needs it to match the response, which can arrive before the write returns)
+		li := P.MayLockAnalysis(wp, P.EntryLocks(wp))
+		counts3 := map[string]int{}
+		seen3 := map[ssa.Instruction]bool{}
+		for _, o := range outs {
+			if seen3[o] {
+				continue
+			}
+			seen3[o] = true
+			held := li.HeldAt(o)
+			key := ordKey(counts3, "rtmp|(*Protocol).WritePacket|no-transaction-lock-across-write")
+			R.Check(!held["Protocol.input.ltransactions"], rule, key, P.InstrPos(o),
+				"the transaction lock is not held during this transport write",
+				"the transaction lock is held across this transport write: the reader cannot match a response that arrives while the request is still being written (and deadlocks with a synchronous transport)",
+				map[string]interface{}{"held": held.Sorted()})
+		}
 		// and never again afterwards: a registration that can follow a transport write re-inserts a request the reader may
 		// already have matched and deleted, so the same response could be matched twice
 		counts2 := map[string]int{}
